@@ -31,6 +31,7 @@ class Exec(ExprMixin, StmtMixin, CallMixin):
         self.lemmas = lemmas_mod
         self.nexec = 0
         self.qdepth = 0
+        self.pure_cache = {}
         self.listsets = False
         for m in (models or []): m.install(self)
 
@@ -76,6 +77,10 @@ class Exec(ExprMixin, StmtMixin, CallMixin):
         a = e.args
         if n in self.defs:
             params, body = self.defs[n]
+            if not params and n in self.contract.get('state_independent', ()):
+                # macro over argparse constants only (given(..)): same term on every path, evaluate once
+                if n not in self.pure_cache: self.pure_cache[n] = self.ev(parse_spec(body), p)
+                return self.pure_cache[n]
             if len(params) != len(a): raise StaleContract('arity of spec function ' + n)
             q = p.fork(); vals = [self.ev(x, p) for x in a]
             q.env = dict(p.env)
@@ -153,7 +158,7 @@ class Exec(ExprMixin, StmtMixin, CallMixin):
         """Generate all VCs of function `key`.  Returns (vcs, info)."""
         fn = self.repo.get(key); c = self.contracts.get(key)
         if c is None: raise StaleContract('no contract for ' + key)
-        self.fn = fn; self.contract = c; self.vcs = []
+        self.fn = fn; self.contract = c; self.vcs = []; self.pure_cache = {}
         self.listsets = 'listsets' in c.get('theory', [])
         self.defs = dict(self.global_defs); self.defs.update(c.get('defs', {}))
         nloops = len(fn.loop_nodes)
@@ -265,19 +270,33 @@ def _verify_lemma(self, name, L):
     p = Path()
     for n, k in L.get('vars', {}).items(): p.env[n] = self.make_value(k, n, p)
 
+    own_defs = self.defs
+
+    class _Cl:
+        def __init__(s, nm, src, q, defs): s.nm = nm; s.src = src; s.q = q; s.defs = defs
+
     def clauses(h):
-        if isinstance(h, str): return [(None, h, p)]
+        if isinstance(h, str): return [_Cl(None, h, p, own_defs)]
         which, key, binding = h
         c = self.contracts[key]; q = p.fork(); q.env = {}
         for n, src in binding.items(): q.env[n] = self.spec_value(src, p)
+        d = dict(self.global_defs); d.update(c.get('defs', {}))
         out = []
         for i, src in enumerate(c.get(which, [])):
             nm, src = src if isinstance(src, tuple) else ('%s%d' % (which, i), src)
-            out.append((nm, src, q))
+            out.append(_Cl(nm, src, q, d))
         if not out: raise StaleContract('lemma %s: %s has no %s clauses' % (name, key, which))
         return out
+
+    def ev_clause(cl):
+        q = cl.q.fork() if cl.q is not p else p
+        if cl.q is not p:      # clauses of another contract see the lemma's current heap / pc but their own bindings
+            q.pc = p.pc
+        self.defs = cl.defs
+        try: return self.spec_eval(cl.src, q)
+        finally: self.defs = own_defs
     for h in L.get('hyps', []):
-        for nm, src, q in clauses(h): p.assume(self.spec_eval(src, q))
+        for cl in clauses(h): p.assume(ev_clause(cl))
     self.vcs.append(VC('cover/hyps', list(p.pc), z3.BoolVal(False), 'cover', 0, self.fn.key, expect='sat'))
     if 'induct' in L:
         # claim(m) for all lo <= m <= hi, by induction on m: base and step are separate VCs (the induction
@@ -293,11 +312,11 @@ def _verify_lemma(self, name, L):
         p.assume(self.induct_fact(L, p))
     for g in L.get('goals', []):
         if isinstance(g, tuple) and g[0] == 'assume':      # hypotheses added after earlier goals (ordering matters)
-            for nm, src, q in clauses(g[1]): p.assume(self.spec_eval(src, q))
+            for cl in clauses(g[1]): p.assume(ev_clause(cl))
             continue
         if isinstance(g, tuple) and len(g) == 3 and g[0] in ('requires', 'ensures'):
-            for nm, src, q in clauses(g):
-                self.vcs.append(VC('goal/%s/%s' % (g[1].split(':')[1], nm), list(p.pc), self.spec_eval(src, q), 'lemma', 0, self.fn.key))
+            for cl in clauses(g):
+                self.vcs.append(VC('goal/%s/%s' % (g[1].split(':')[1], cl.nm), list(p.pc), ev_clause(cl), 'lemma', 0, self.fn.key))
         else:
             nm, src = g
             self.vcs.append(VC('goal/' + nm, list(p.pc), self.spec_eval(src, p), 'lemma', 0, self.fn.key))
